@@ -95,6 +95,22 @@ func c17Exec(c *Ctx, ops []string) []string {
 		if got.AvailableIPCount == 0 {
 			c.Violate("C17/free", fmt.Sprintf("chosen vSwitch %s has no free addresses", got.ID), trace...)
 		}
+		// 'ordered' (and the default policy, which leaves the list as it is) picks the first eligible candidate: no earlier
+		// candidate of the list is in the requested zone with free addresses.  Earlier candidates were looked up by GetOne
+		// itself, so they are cached; a lookup with an empty cloud reads the cache without filling it.
+		if (policy == "ordered" || policy == "default") && got.Zone == zone {
+			for _, id := range before {
+				if id == got.ID {
+					break
+				}
+				if sw, err := s.pool.GetByID(context.Background(), &fakeVPC{sw: map[string][2]string{}}, id); err == nil && sw.Zone == zone && sw.AvailableIPCount > 0 {
+					if exp, ok := s.blocked[id]; ok && s.now <= exp {
+						continue
+					}
+					c.Violate("C17/ordered-first", fmt.Sprintf("policy %s chose %s although %s comes earlier in the list, lies in zone %s and has %d free addresses", policy, got.ID, id, zone, sw.AvailableIPCount), trace...)
+				}
+			}
+		}
 		if exp, ok := s.blocked[got.ID]; ok && s.now <= exp {
 			c.Violate("C17/blocked", fmt.Sprintf("vSwitch %s chosen at t=%d although reported exhausted until t=%d", got.ID, s.now, exp), trace...)
 		}
